@@ -28,7 +28,7 @@ RULE = ('solved returns (generated programs with generated PDF mappings, limits,
         'carried at least one of ( ) \\ " or that involved >= 2 filed forms or a limit violation; distinct = distinct '
         '(year, filed-form list, character classes) combinations')
 F = simrun.F
-ADVERSARIAL = ['O(Brien', 'Smith)', '(both)', 'a\\b', 'trail\\', '\\(', 'Jo "J" K', "D'Arcy", '))((', 'x (y) z', 'C:\\dir\\f',
+ADVERSARIAL = ['(704) 555-0137', '(3rd floor)', 'zone (4)7', ')5', '(0', 'Apt (12', 'O(Brien', 'Smith)', '(both)', 'a\\b', 'trail\\', '\\(', 'Jo "J" K', "D'Arcy", '))((', 'x (y) z', 'C:\\dir\\f',
                'a\\nb', '\\051', 'ends(', '#5 Apt (rear)', 'x' * 40, 'A & B <c>', '50~', '{[]}', 'semi;colon', 'eq=sign',
                'x' * 199 + '\\' + 'y' * 60, 'ab(' * 90, '\\' * 260, 'q' * 198 + '()' + 'r' * 210, ('long (text) \\ ' * 30).strip()]
 
